@@ -149,7 +149,14 @@ class OpsMixin(object):
                     return SV(q, "int")
                 return SV(A.t - B.t * q, "int")
             Ar, Br = to_real(A), to_real(B)
-            q = z3.ToReal(z3.ToInt(Ar.t / Br.t))  # floor
+            if not isinstance(b, SV) and b > 0:
+                # floor(a/b) as a fresh integer with linear bounds (no ToInt term): q*b <= a < (q+1)*b
+                qi = self.E.fresh_int("floor")
+                qr = z3.ToReal(qi.t)
+                self.E.axiom(z3.And(qr * Br.t <= Ar.t, Ar.t < (qr + 1) * Br.t))
+                q = qr
+            else:
+                q = z3.ToReal(z3.ToInt(Ar.t / Br.t))  # floor
             if op == "//":
                 return SV(q, "real")
             return SV(Ar.t - Br.t * q, "real")
@@ -253,15 +260,46 @@ class OpsMixin(object):
         if op == "^":
             if isinstance(b, int):
                 return SV(mask_and(A.t, ~b) + mask_and(~A.t if False else (-A.t - 1), b), "int")
-        # both symbolic: 64-bit vectors, sound when both operands lie in [-2^62, 2^62)
-        W = 64
-        lo, hi = -(1 << 62), (1 << 62)
-        for X in (A, B):
-            if self.E.decide(sv_or(SV(X.t < lo), SV(X.t >= hi))):
-                raise Undecided("bit operation on an integer outside 63 bits")
-        x, y = z3.Int2BV(A.t, W), z3.Int2BV(B.t, W)
-        r = {"&": x & y, "|": x | y, "^": x ^ y}[op]
-        return SV(z3.BV2Int(r, True), "int")
+        # both symbolic: exact when the operands provably occupy disjoint bit ranges (x | y == x + y, x & y == 0)
+        ra, rb = self.bit_range(A), self.bit_range(B)
+        if ra is not None and rb is not None:
+            (ka, ma), (kb, mb) = ra, rb
+            if ma <= kb or mb <= ka:
+                if op in ("|", "^"):
+                    return SV(A.t + B.t, "int")
+                return 0
+        # one operand confined to a window [k, m) in which the other has only zero bits
+        for (X, rx, Y) in ((A, ra, B), (B, rb, A)):
+            if rx is None:
+                continue
+            k, m = rx
+            if self.entails(SV((Y.t / pw2(k)) % pw2(m - k) == 0, "bool")):
+                if op in ("|", "^"):
+                    return SV(A.t + B.t, "int")
+                return 0
+        raise Undecided("bit operation %s on two symbolic integers whose bit ranges are not provably disjoint" % op)
+
+    def entails(self, cond):
+        import z3 as _z3
+
+        c = to_bool(cond).t
+        return not self.E._feasible(_z3.Not(c))
+
+    def bit_range(self, X):
+        """(k, m): X is a multiple of 2^k and 0 <= X < 2^m under the current path condition (None if unknown)"""
+        m = None
+        for cand in (8, 16, 24, 32, 40, 48, 56, 62):
+            if self.entails(SV(z3.And(X.t >= 0, X.t < pw2(cand)), "bool")):
+                m = cand
+                break
+        if m is None:
+            return None
+        k = 0
+        for cand in (56, 48, 40, 32, 24, 16, 8):
+            if cand < m and self.entails(SV(X.t % pw2(cand) == 0, "bool")):
+                k = cand
+                break
+        return (k, m)
 
     def unop(self, op, a):
         if isinstance(a, Obj) and a.num is None:
@@ -411,6 +449,9 @@ class OpsMixin(object):
         fb = b if isinstance(b, FmtStr) else FmtStr([b])
         if not fa.nums() and not fb.nums():
             return fa.template() == fb.template()
+        for x, y in ((fa, fb), (fb, fa)):
+            if not x.nums() and y.nums() and not any(ch.isdigit() for ch in x.template()):
+                return False  # a numeral contains a digit (A1 excludes inf/nan); the other text has none
         if fa.template() == fb.template() and len(fa.nums()) == len(fb.nums()):
             conds = []
             for x, y in zip(fa.nums(), fb.nums()):
